@@ -6,6 +6,7 @@ package c18
 
 import (
 	"encoding/json"
+	"errors"
 	"fmt"
 	"os"
 	"path/filepath"
@@ -193,6 +194,41 @@ func loadText(cfgText string, files map[string]string, nports int, migrate bool)
 	return l
 }
 
+// callConfigure calls the listener configuration's Configure method through reflection, filling
+// each parameter by type (logger, server name, listen-config cache, zero for durations/ints, false
+// for flags). The method is exported but its parameter list is an internal detail of the service
+// package; binding to it statically made the whole check fail to compile against a tree that
+// changed it (seeded change C18-b), which turned a detectable violation into "inconclusive".
+func callConfigure(recv any, logger *zap.Logger, serverName string, cache conn.ListenConfigCache) (any, error) {
+	m := reflect.ValueOf(recv).MethodByName("Configure")
+	if !m.IsValid() {
+		return nil, errors.New("no Configure method")
+	}
+	mt := m.Type()
+	args := make([]reflect.Value, mt.NumIn())
+	for i := range args {
+		pt := mt.In(i)
+		switch {
+		case pt == reflect.TypeOf(logger):
+			args[i] = reflect.ValueOf(logger)
+		case pt == reflect.TypeOf(cache):
+			args[i] = reflect.ValueOf(cache)
+		case pt.Kind() == reflect.String:
+			args[i] = reflect.ValueOf(serverName).Convert(pt)
+		default:
+			args[i] = reflect.Zero(pt)
+		}
+	}
+	out := m.Call(args)
+	if len(out) == 0 {
+		return nil, errors.New("Configure returned nothing")
+	}
+	if last := out[len(out)-1]; last.Type().Implements(reflect.TypeOf((*error)(nil)).Elem()) && !last.IsNil() {
+		return nil, last.Interface().(error)
+	}
+	return out[0].Interface(), nil
+}
+
 func observe(cfg *service.Config) obs {
 	o := obs{Accepted: true}
 	cache := conn.NewListenConfigCache()
@@ -213,7 +249,7 @@ func observe(cfg *service.Config) obs {
 			to := tcplObs{Network: l.Network, Address: l.Address, PMTUD: l.PathMTUDiscovery.String(), FastOpen: l.FastOpen, FastOpenFallback: l.FastOpenFallback,
 				ReusePort: l.ReusePort, FastOpenBacklog: l.FastOpenBacklog, DeferAccept: l.DeferAcceptSecs, UserTimeout: l.UserTimeoutMsecs, TrafficClass: l.TrafficClass}
 			lc := *l
-			if eff, err := lc.Configure(cache, false, false); err == nil {
+			if eff, err := callConfigure(&lc, nop, sc.Name, cache); err == nil {
 				to.EffWait = privField(eff, "waitForInitialPayload")
 				to.EffWaitTimeout = privField(eff, "initialPayloadWaitTimeout")
 				to.EffWaitBuf = privField(eff, "initialPayloadWaitBufferSize")
@@ -227,7 +263,7 @@ func observe(cfg *service.Config) obs {
 			uo := udplObs{Network: l.Network, Address: l.Address, PMTUD: l.PathMTUDiscovery.String(), ReusePort: l.ReusePort, TrafficClass: l.TrafficClass,
 				RelayBatch: l.RelayBatchSize, RecvBatch: l.ServerRecvBatchSize, SendCap: l.SendChannelCapacity}
 			lc := *l
-			if eff, err := lc.Configure(nop, sc.Name, cache, 0, false); err == nil {
+			if eff, err := callConfigure(&lc, nop, sc.Name, cache); err == nil {
 				uo.EffNATTimeout = privField(eff, "natTimeout")
 				uo.EffRelayBatch = privField(eff, "relayBatchSize")
 				uo.EffRecvBatch = privField(eff, "serverRecvBatchSize")
